@@ -8,14 +8,11 @@ import UnytProofs.Lemmas.C14Chunk00  -- build order only: at most four chunks ar
 namespace Unyt.C14
 
 /-- every listed name of chunk 4 (four slices of 64 rows) is read by the string route and by the
-    three attribute routes as the independent reference reads it (guard: word-prefixed °C) -/
+    three attribute routes as the independent reference reads it -/
 theorem names_slice_04_0 : namesSliceOk 4 0 = true := by decide +kernel
 theorem names_slice_04_1 : namesSliceOk 4 1 = true := by decide +kernel
 theorem names_slice_04_2 : namesSliceOk 4 2 = true := by decide +kernel
 theorem names_slice_04_3 : namesSliceOk 4 3 = true := by decide +kernel
-
-/-- every excluded name of chunk 4 really is unusable as a unit string -/
-theorem exclusions_chunk_04 : exclusionsChunkOk 4 = true := by decide +kernel
 
 /-- prefix spellings 3·4 … 3·4+2 (symbols, then word forms) are rejected on every
     non-prefixable spelling (three slices of 110 spelling rows) -/
